@@ -238,7 +238,7 @@ def evidence(pid, tier, seed, meta, reg, fns, results, proof_obls, discharged, r
     lemmas = {}
     for r in results:
         for l in r.get("lemmas_used", []):
-            lemmas[l] = T.LEMMAS.get(l.split("+")[0], T.LEMMAS.get(l, "see pyvc/theory.py LEMMAS"))
+            lemmas[l] = _lemma_text(l)
     for q, c in reg.contracts.items():
         if c.trusted and pid in c.properties:
             trusted.add(f"assumed contract (not verified against a body): {q} — {c.note}")
@@ -278,6 +278,7 @@ def evidence(pid, tier, seed, meta, reg, fns, results, proof_obls, discharged, r
                    "problems": guard_problems},
         "known_findings_reproduced": [h["id"] for h, f in known_hits],
         "explanation": meta.get("decided_by", ""),
+        "decided_only_by_the_bounded_stand_in": meta.get("bounded", ""),
     }
     if bounded is not None:
         cov["bounded"] = {"label": "BOUNDED stand-in, not counted as proved", "bound": bounded.get("bound"),
@@ -294,6 +295,12 @@ def evidence(pid, tier, seed, meta, reg, fns, results, proof_obls, discharged, r
         cov["explanation"] = "NO function carrying this property is under contract yet: this run is the BOUNDED stand-in only (not a proof). " + cov["explanation"]
     return {"property_id": pid, "tier": tier, "seed": seed, "level": level, "coverage": cov,
             "assumptions": sorted(trusted), "wall_s": round(wall, 2), "violations": violations}
+
+
+def _lemma_text(name):
+    from pyvc import theory as T
+    import re
+    return T.LEMMAS.get(name) or T.LEMMAS.get(re.sub(r"\(.*\)$", "", name)) or "instance stated in the contract file (DESIGN.md section 3)"
 
 
 def replay(pid, path):
